@@ -17,7 +17,7 @@ import (
 	"verif/harness/internal/ref/enc"
 )
 
-const ruleC22 = "sequences of 1-12 of the 12 registered wire messages with reflection-generated bodies, framed with EncodeMessage and concatenated; chunkings drawn from {all-in-one, 1-byte chunks, random cut points, a cut inside a length prefix, a cut inside the message id, a cut right after k complete frames plus a partial one}; each chunk is appended to the connection buffer and decoded as the read loop does; hostile streams: a valid stream with one frame replaced by {length 0..3, length > max, unknown id, body truncated, body extended, id truncated} or random bytes; oracle: delivered messages == sent messages in order (same type, same encoding), buffer empty at the end; hostile frame => one of the documented disconnect errors or a decode, nothing delivered out of order or altered, never a panic; non-trivial = some chunk ends with >=1 complete frame followed by a partial frame, or the stream is hostile; distinct by (stream, chunking)"
+const ruleC22 = "sequences of 1-12 of the 12 registered wire messages with reflection-generated bodies, framed with EncodeMessage and concatenated; chunkings drawn from {all-in-one, 1-byte chunks, random cut points, a cut inside a length prefix, a cut inside the message id, a cut right after k complete frames plus a partial one}; each chunk is appended to the connection buffer and decoded as the read loop does, with a handler that keeps up or lags 1, 2, 5 or 31 messages behind (framed messages wait in the receive queue while later reads are written into the buffer and must not change); hostile streams: a valid stream with one frame replaced by {length 0..3, length > max, unknown id, body truncated, body extended, id truncated} or random bytes; oracle: delivered messages == sent messages in order (same type, same encoding), buffer empty at the end; hostile frame => one of the documented disconnect errors or a decode, nothing delivered out of order or altered, never a panic; non-trivial = some chunk ends with >=1 complete frame followed by a partial frame, or the stream is hostile; distinct by (stream, chunking)"
 
 var disconnectErrs = map[error]bool{
 	gnet.ErrDisconnectInvalidMessageLength:   true,
@@ -34,7 +34,38 @@ type delivered struct {
 
 // feed pushes chunks through Buffer + decodeData + convertToMessage exactly like readLoop/receiveMessage.
 func feed(chunks [][]byte, maxLen int) (out []delivered, rest int, err error, panicMsg string) {
+	return feedQueued(chunks, maxLen, 0)
+}
+
+// feedQueued is the receive loop with a handler that lags behind: the framed messages returned by decodeData wait in a
+// queue (the connection's receive queue holds up to 32) while further reads are written into the buffer, and are only
+// converted once `lag` newer messages have arrived (lag 0 = converted at once).  The bytes of a queued message must
+// not change while it waits.
+func feedQueued(chunks [][]byte, maxLen int, lag int) (out []delivered, rest int, err error, panicMsg string) {
 	buf := &bytes.Buffer{}
+	var queue [][]byte
+	convert := func(d []byte) (error, string) {
+		var m gnet.Message
+		var cerr error
+		if p := call(func() { m, cerr = gnet.VerifConvertToMessage(1, d) }); p != nil {
+			return nil, fmt.Sprintf("convertToMessage panicked: %v", p)
+		}
+		if cerr != nil {
+			return cerr, ""
+		}
+		out = append(out, delivered{typ: reflect.TypeOf(m).Elem().Name(), body: enc.Encode(m)})
+		return nil, ""
+	}
+	drain := func(keep int) (error, string) {
+		for len(queue) > keep {
+			d := queue[0]
+			queue = queue[1:]
+			if e, p := convert(d); e != nil || p != "" {
+				return e, p
+			}
+		}
+		return nil, ""
+	}
 	for _, ch := range chunks {
 		buf.Write(ch)
 		var datas [][]byte
@@ -43,7 +74,23 @@ func feed(chunks [][]byte, maxLen int) (out []delivered, rest int, err error, pa
 			return out, buf.Len(), nil, fmt.Sprintf("decodeData panicked: %v", p)
 		}
 		if derr != nil {
+			if e, p := drain(0); e != nil || p != "" {
+				return out, buf.Len(), e, p
+			}
 			return out, buf.Len(), derr, ""
+		}
+		if lag > 0 {
+			queue = append(queue, datas...)
+			if len(queue) > 32 {
+				lag = 0 // the real queue is bounded: from here on the handler keeps up
+			}
+			if e, p := drain(lag); e != nil || p != "" {
+				return out, buf.Len(), e, p
+			}
+			continue
+		}
+		if e, p := drain(0); e != nil || p != "" {
+			return out, buf.Len(), e, p
 		}
 		for _, d := range datas {
 			var m gnet.Message
@@ -56,6 +103,9 @@ func feed(chunks [][]byte, maxLen int) (out []delivered, rest int, err error, pa
 			}
 			out = append(out, delivered{typ: reflect.TypeOf(m).Elem().Name(), body: enc.Encode(m)})
 		}
+	}
+	if e, p := drain(0); e != nil || p != "" {
+		return out, buf.Len(), e, p
 	}
 	return out, buf.Len(), nil, ""
 }
@@ -173,19 +223,23 @@ func TestC22_Framing(t *testing.T) {
 		}
 		chunks, mode := chunkStream(t, stream, ends)
 		maxLen := maxFrame + rapid.IntRange(0, 100).Draw(t, "slack")
-		got, rest, err, pm := feed(chunks, maxLen)
+		lag := rapid.SampledFrom([]int{0, 0, 1, 2, 5, 31}).Draw(t, "handler_lag")
+		got, rest, err, pm := feedQueued(chunks, maxLen, lag)
+		if lag > 0 {
+			r.Count("lagging_handler")
+		}
 		if pm != "" {
 			t.Fatalf("%s\n stream=%x", pm, stream)
 		}
 		if err != nil {
-			t.Fatalf("valid stream refused: %v (chunking %s, %d chunks)\n stream=%x", err, mode, len(chunks), stream)
+			t.Fatalf("valid stream refused: %v (chunking %s, %d chunks, handler lag %d)\n stream=%x", err, mode, len(chunks), lag, stream)
 		}
 		if len(got) != len(want) {
 			t.Fatalf("sent %d messages, %d delivered (chunking %s, chunk sizes %v, frame ends %v)", len(want), len(got), mode, sizes(chunks), ends)
 		}
 		for i := range want {
 			if got[i].typ != want[i].typ || !bytes.Equal(got[i].body, want[i].body) {
-				t.Fatalf("message %d differs: sent %s %x, delivered %s %x", i, want[i].typ, want[i].body, got[i].typ, got[i].body)
+				t.Fatalf("message %d differs (handler lag %d, chunk sizes %v): sent %s %x, delivered %s %x", i, lag, sizes(chunks), want[i].typ, want[i].body, got[i].typ, got[i].body)
 			}
 		}
 		if rest != 0 {
